@@ -1,2 +1,6 @@
 import TransportVerif.Props.C20
-#print axioms TV.Props.C20.placeholder
+#print axioms TV.Props.C20.xor_old_correct
+#print axioms TV.Props.C20.contract_n
+#print axioms TV.Props.C20.contract_prefix
+#print axioms TV.Props.C20.contract_frame_dst
+#print axioms TV.Props.C20.contract_frame_ab
